@@ -162,6 +162,17 @@ func CheckC18Scalar(c C18Scalar, rec *Rec) error {
 			return fmt.Errorf("%s(%v) returned error %v", ref.name, x, err)
 		}
 		vals[i] = got
+		// the definition has one argument: auxiliary parameters (a node's derived trait parameters, which the network hands
+		// over with every activation) do not enter it, neither directly nor through the node-level entry point
+		aux := []float64{x, -x, 1e9, 0.5}
+		if withAux, err := neatmath.NodeActivators.ActivateByType(x, aux, typ); err != nil || !sameFloat(withAux, got) {
+			return fmt.Errorf("%s(%v) = %v, but %v (error %v) when auxiliary parameters %v are handed over", ref.name, x, got, withAux, err, aux)
+		}
+		node := network.NewNNode(1, network.HiddenNeuron)
+		node.ActivationType, node.ActivationSum, node.Params = typ, x, aux[:i+1]
+		if err := network.ActivateNode(node, neatmath.NodeActivators); err != nil || !sameFloat(node.Activation, got) {
+			return fmt.Errorf("%s(%v) = %v, but activating a node with that activation sum gives %v (error %v)", ref.name, x, got, node.Activation, err)
+		}
 		want := ref.f(x)
 		if math.IsNaN(got) || math.IsInf(got, 0) {
 			return fmt.Errorf("%s(%v) = %v is not finite", ref.name, x, got)
@@ -221,7 +232,7 @@ func GenC18Module() *rapid.Generator[C18Module] {
 	return rapid.Custom(func(t *rapid.T) C18Module {
 		c := C18Module{Type: rapid.IntRange(21, 23).Draw(t, "type")}
 		n := rapid.OneOf(rapid.IntRange(1, 8), rapid.IntRange(1, 8), rapid.IntRange(9, 40)).Draw(t, "n")
-		kind := rapid.IntRange(0, 3).Draw(t, "kind")
+		kind := rapid.IntRange(0, 4).Draw(t, "kind")
 		for i := 0; i < n; i++ {
 			var x float64
 			switch kind {
@@ -231,6 +242,8 @@ func GenC18Module() *rapid.Generator[C18Module] {
 				x = -rapid.Float64Range(1e19, 1e300).Draw(t, "x")
 			case 2:
 				x = rapid.Float64Range(1e19, 1e300).Draw(t, "x")
+			case 4: // up to the ends of the float64 range
+				x = rapid.SampledFrom([]float64{math.MaxFloat64, -math.MaxFloat64, 1.1e308, -1.1e308, 1e301, -1e301, 5e-324, -5e-324}).Draw(t, "x")
 			default:
 				x = genActInput().Draw(t, "x")
 			}
